@@ -37,7 +37,7 @@ TIME_LIMIT = {"quick": 40, "thorough": 560}
 SHARDS = 16
 CODECS = ["null", "deflate", "bzip2", "xz"]
 REACH = {
-    "quick": {"fa_files_appended": 300, "fa_files_parsed": 600, "ref_files_read": 600, "files_with_empty_blocks": 50,
+    "quick": {"fa_files_appended": 300, "blocks_over_64k": 16, "fa_files_parsed": 600, "ref_files_read": 600, "files_with_empty_blocks": 50,
               "header_multi_chunk": 50, "codec_key_absent": 50, "is_avro_checked": 500,
               "blocks_tiled": 500, "fixtures_compared": 10},
     "thorough": {"fa_files_parsed": 10000, "ref_files_read": 10000},
@@ -153,17 +153,19 @@ def random_partition(rng, n):
     return parts
 
 
-def ref_to_fa(sh, fa, rng, case, recs):
+def ref_to_fa(sh, fa, rng, case, recs, partition=None, codec=None):
     js, node = case["schema"], case["node"]
-    codec_key = rng.random() < 0.7
-    codec = rng.choice(CODECS) if codec_key else "null"
+    codec_key = rng.random() < 0.7 or codec is not None
+    codec = codec or (rng.choice(CODECS) if codec_key else "null")
     enc = []
     expected = []
     for d in recs:
         t = RC.from_datum(node, d)
         enc.append(RB.encode(node, t))
         expected.append(RB.to_py(node, t))
-    partition = random_partition(rng, len(recs))
+    partition = partition or random_partition(rng, len(recs))
+    if max(partition, default=0) and max(sum(len(e) for e in enc[sum(partition[:i]):sum(partition[:i + 1])]) for i in range(len(partition))) > 65536:
+        sh.count("blocks_over_64k")
     extra = rng.choice([{}, {"zzz": "1"}, {"a": "x", "b": "y", "c": "é"}])
     n_entries = 1 + (1 if codec_key else 0) + len(extra)
     nch = rng.randint(1, min(4, n_entries))
@@ -336,6 +338,18 @@ def run_shard(spec):
         return sh.result()
     if spec.get("boundary"):
         sh.run_case(fixtures, sh, fa)
+    # blocks far larger than any internal buffer, every codec (one configuration per shard)
+    big_schema = {"type": "record", "name": "Big", "fields": [{"name": "i", "type": "long"}, {"name": "s", "type": "string"}]}
+    big_node, _e = RS.build(big_schema)
+    k = spec["shard"]
+    codec = CODECS[k % len(CODECS)]
+    if k < 8:
+        recs = [{"i": j * 7919, "s": "row-%d-%s" % (j, "x" * (j % 40))} for j in range(4000 + 500 * k)]
+        partition = [len(recs)] if k % 2 else [1, len(recs) - 2, 1]
+    else:
+        recs = [{"i": 1, "s": "é" * (40000 * (k - 7))}, {"i": 2, "s": ""}]
+        partition = [1, 1] if k % 2 else [2]
+    sh.run_case(ref_to_fa, sh, fa, rng, {"schema": big_schema, "node": big_node}, recs, partition, codec)
     sh.run_case(is_avro_cases, sh, fa, rng, scratch, 60 if spec["tier"] == "quick" else 2000)
     i = 0
     while i < spec["n"] and not sh.out_of_time():
